@@ -1,11 +1,12 @@
 SPECIFICATION Spec
 CONSTANTS
-  Kinds = {"fast_dyn", "fast_static"}
+  Kinds = {"fast_static"}
   Arities = {2}
   NXs = {0}
   K = 3
-  MaxHist = 4
+  MaxHist = 3
   HasErase = TRUE
+  Copies = FALSE
   Mutation = "none"
 CONSTRAINT Bound
 VIEW repview
